@@ -752,7 +752,12 @@ def c07(run):
                  ["C07:", "C01:nullable"], workers=workers(run), nontrivial=_depth_ge1, timeout=3000)
     run.validate("manager_random", os.path.join(out2, "manager_random.ndjson"), "Trace_Manager", "Trace_Manager.cfg",
                  ["C07:"], workers=workers(run), nontrivial=lambda r: nmk(r) >= 8, timeout=3000)
-    run.extra["driver"] = [info, info2]
+    # several managers alive at once and used alternately (plus a concurrently running wrapper thread): the families
+    # of C01, membership judged against the AST
+    out3, info3 = _drive(run, "c01", sub="interleaved")
+    run.validate("c07_interleaved", os.path.join(out3, "c07_interleaved.ndjson"), "Trace_Regex", "Trace_Regex.cfg",
+                 ["C07:"], workers=workers(run), nontrivial=_depth_ge1, timeout=1500)
+    run.extra["driver"] = [info, info2, info3]
 
 
 # ------------------------------------------------------------------------------------ housekeeping
